@@ -103,6 +103,11 @@ def tpl_ids(sizeA, sizeB, named, x1, a1, x2, a2, x3, a3, x4, a4, t, _twin=False)
             check()
             w.drain()
             check()
+            # independence: both pools started from 0
+            for pool in (A, B):
+                if pool._num_started and not any(x["name"] == str(pool) + "_Task-0" for x in w.W) \
+                        and not (0 in pool._tasks_running):
+                    w.fail(1105)
             # a pool that was closed must not make a later unnamed pool collide with a live one
             if t >= 0:
                 g = itA.gather_and_close(True)
@@ -112,11 +117,6 @@ def tpl_ids(sizeA, sizeB, named, x1, a1, x2, a2, x3, a3, x4, a4, t, _twin=False)
                     E = SimpleTaskPool(w.worker("E"))
                     if len({str(A), str(B), str(C), str(B2), str(B3), str(D), str(E)}) != 7:
                         w.fail(1106)
-            # independence: both pools started from 0
-            for pool in (A, B):
-                if pool._num_started and not any(x["name"] == str(pool) + "_Task-0" for x in w.W) \
-                        and not (0 in pool._tasks_running):
-                    w.fail(1105)
         except Excluded as e:
             w.excluded = str(e)
         code = code or w.err
